@@ -19,12 +19,21 @@ Boot ==
 Ok(ev) == ev.obs.ret = "ok"
 IdIn(ev) == IF Ok(ev) /\ Len(ev.obs.val) = 1 THEN ev.obs.val[1] ELSE 0
 
+\* the call was denied memory (the driver reports that the armed failure was consumed) and refused
+Starved(ev) == "fail" \in DOMAIN ev.arg /\ ev.arg.fail > 0 /\ ev.obs.oom = 1 /\ ~Ok(ev)
+Fail(ev) == IF "fail" \in DOMAIN ev.arg THEN ev.arg.fail ELSE 0
+
 TraceStep(ev) ==
   CASE ev.a = "boot"       -> Boot
-    [] ev.a = "addbasic"   -> AddBasic(ev.arg.size, Ok(ev), IdIn(ev))
-    [] ev.a = "addgeneric" -> AddGeneric(ev.arg.size, ev.arg.managed, Ok(ev), IdIn(ev))
-    [] ev.a = "addiface"   -> AddIface(ev.arg.name, Ok(ev), IdIn(ev))
-    [] ev.a = "addmeta"    -> AddMeta(ev.arg.name, Ok(ev), IdIn(ev))
+    [] ev.a = "addbasic"   -> IF Starved(ev) THEN OomBasic(ev.arg.size, ev.arg.fail)
+                              ELSE AddBasic(ev.arg.size, Ok(ev), IdIn(ev))
+    [] ev.a = "addgeneric" -> IF Starved(ev) THEN OomGeneric(ev.arg.size, ev.arg.managed, ev.arg.fail, genC)
+                              ELSE AddGeneric(ev.arg.size, ev.arg.managed, Ok(ev), IdIn(ev))
+    [] ev.a = "addiface"   -> IF Starved(ev) THEN OomIface(ev.arg.name, ev.arg.fail)
+                              ELSE AddIface(ev.arg.name, Ok(ev), IdIn(ev))
+    [] ev.a = "addmeta"    -> IF Starved(ev) THEN OomMeta(ev.arg.name, ev.arg.fail, metaC)
+                              ELSE AddMeta(ev.arg.name, Ok(ev), IdIn(ev))
+    [] ev.a = "fmtsweep"   -> FmtSweep(ev.arg.types, ev.arg.nat)
     [] ev.a = "byid"       -> ById(ev.arg.id)
     [] ev.a = "scan"       -> Scan(ev.arg.lo, ev.arg.hi)
     [] ev.a = "byname"     -> ByName(ev.arg.text, ev.arg.len)
@@ -46,6 +55,11 @@ Matches(ev) ==
                /\ obs'.exp.ntype = ev.obs.ntype
        [] ev.a = "scan" -> obs'.exp.list = Closed(ev.obs.list)
        [] ev.a \in {"byname", "alias"} -> obs'.exp.val = ev.obs.val
+       [] ev.a = "fmtsweep" ->
+            /\ obs'.exp.nat = ev.obs.nat /\ obs'.exp.ids = ev.obs.ids
+            /\ Len(ev.obs.codes) = Len(ev.arg.types) /\ Len(ev.obs.sizes) = Len(ev.arg.types)
+            /\ \A k \in 1..Len(ev.arg.types) : ev.arg.types[k] \in FmtScalars =>
+                 /\ obs'.exp.codes[k] = ev.obs.codes[k] /\ obs'.exp.sizes[k] = ev.obs.sizes[k]
 
 TraceInit == l = 1 /\ Init
 
